@@ -226,9 +226,53 @@ theorem addStatic_good (f : Nat) (t t' : Table) (pfx q : Str) (hid : Nat) (h : G
   repeat' split at he
   all_goals first | (injection he with he; subst he; exact register_good f t _ h hq) | cases he
 
+theorem positions_map_congr (P : Res → Bool) (g : Res → Res) (rs : List Res)
+    (h : ∀ r, P (g r) = P r) : positions P (rs.map g) = positions P rs := by
+  induction rs with
+  | nil => rfl
+  | cons r rs ih => rw [List.map_cons, positions_cons, positions_cons, ih, h]
+
+theorem freezeRes_isDom (r : Res) : isDom (freezeRes r) = isDom r := by cases r <;> rfl
+
+theorem freezeRes_keyOf (r : Res) : keyOf (freezeRes r) = keyOf r := by
+  cases r with
+  | plain p rts =>
+    simp only [freezeRes, keyOf, canonical]
+    cases p with
+    | nil => decide
+    | cons c t => rfl
+  | _ => rfl
+
+/-- `UrlDispatcher.freeze` (empty plain path becomes `/`) keeps the table good: the index key of
+`""` and of `"/"` is the same -/
+theorem freeze_good (f : Nat) (t : Table) (h : Good f t) : Good f t.freeze := by
+  cases f with
+  | zero => trivial
+  | succ f =>
+    cases t with
+    | mk rs idx m =>
+      obtain ⟨⟨hidx, hm⟩, hmem⟩ := h
+      simp only [Table.index, Table.rs, Table.matched] at hidx hm hmem
+      have e1 : ∀ k, positions (fun r => !isDom r && keyOf r == k) (rs.map freezeRes) =
+          positions (fun r => !isDom r && keyOf r == k) rs := fun k =>
+        positions_map_congr _ freezeRes rs (by intro r; simp only [freezeRes_isDom, freezeRes_keyOf])
+      have e2 : positions isDom (rs.map freezeRes) = positions isDom rs :=
+        positions_map_congr _ freezeRes rs freezeRes_isDom
+      refine ⟨⟨?_, ?_⟩, ?_⟩
+      · intro k
+        simp only [Table.freeze, Table.index, Table.rs, e1]
+        exact hidx k
+      · simp only [Table.freeze, Table.matched, Table.rs, e2]
+        exact hm
+      · intro x hx
+        simp only [Table.freeze, Table.rs, List.mem_map] at hx
+        obtain ⟨r, hr, rfl⟩ := hx
+        have := hmem r hr
+        cases r <;> first | trivial | exact this
+
 /-- `add_domain` keeps the table good -/
 theorem addDomain_good (f : Nat) (t s : Table) (rule : Rule) (h : Good (f + 1) t) (hs : Good f s) :
-    Good (f + 1) (addDomain t rule s) := register_good f t _ h hs
+    Good (f + 1) (addDomain t rule s) := register_good f t _ h (freeze_good f s hs)
 
 /-- `add_subapp`, parent side: registering the (already prefixed) sub-application keeps the
 parent good.  (*partial*: that the re-indexing loop `_add_prefix_to_resources` leaves the
@@ -252,7 +296,7 @@ theorem addSubapp_good_partial (f fuel : Nat) (t t' s : Table) (pfx q : Str) (h 
       | ok s' =>
         simp only [hp, bind, Except.bind, pure, Except.pure] at he
         injection he with he; subst he
-        exact register_good f t _ h ⟨hq, hs s' hp⟩
+        exact register_good f t _ h ⟨hq, freeze_good f s' (hs s' hp)⟩
 
 
 /-! ## path-normalising redirects stay on the site -/
@@ -769,5 +813,67 @@ theorem urlfor_resolve_inverse_partial (ps : List Part) (ws : Dict) (h : Fits ps
 theorem unquoteSafe_id (v : Str) (h : v.contains PCT = false) : unquoteSafe v = v := by
   unfold unquoteSafe
   rw [h]; rfl
+
+
+/-! ## non-vacuity and the findings as kernel-checked facts about the model -/
+
+def GET : Str := [71, 69, 84]
+def POST : Str := [80, 79, 83, 84]
+/-- `/a` -/ def pA : Str := [47, 97]
+/-- `/a/{x}` -/ def tAX : Str := [47, 97, 47, 123, 120, 125]
+/-- requote oracle for `/a/{x}`: `"/a/" ↦ "/a/"`, `"" ↦ ""` -/
+def rqAX : List (Str × Str) := [([47, 97, 47], [47, 97, 47]), ([], [])]
+
+def okTable (e : Except Err Table) : Table := match e with | .ok t => t | .error _ => Table.empty
+def isOk {α} (e : Except Err α) : Bool := match e with | .ok _ => true | .error _ => false
+def errIs {α} (e : Except Err α) (x : Err) : Bool := match e with | .ok _ => false | .error y => y == x
+
+theorem ok_of_isOk (e : Except Err Table) (h : isOk e = true) : e = .ok (okTable e) := by
+  cases e <;> simp_all [isOk, okTable]
+
+/-- table: `add_route GET /a/{x}`, `add_route POST /a` -/
+def exTable : Table :=
+  okTable (addRoute rqAX (okTable (addRoute rqAX Table.empty GET tAX 0)) POST pA 1)
+
+/-- the hypotheses of `resolve_eq_linear` are satisfiable: a table built by the registration
+operations is `Good`, and `/a/b` starts with a slash -/
+example : Good 1 exTable ∧ StartsSL [47, 97, 47, 98] := by
+  refine ⟨?_, rfl⟩
+  have h1 : addRoute rqAX Table.empty GET tAX 0 = .ok (okTable (addRoute rqAX Table.empty GET tAX 0)) :=
+    ok_of_isOk _ (by decide +kernel)
+  have g1 := addRoute_good 0 rqAX _ _ GET tAX 0 (empty_good 1) h1
+  have h2 : addRoute rqAX (okTable (addRoute rqAX Table.empty GET tAX 0)) POST pA 1 = .ok exTable :=
+    ok_of_isOk _ (by decide +kernel)
+  exact addRoute_good 0 rqAX _ _ POST pA 1 g1 h2
+
+def isFound (r : Result) (hid : Nat) : Bool := match r with | .found h _ => h == hid | _ => false
+def is404 (r : Result) : Bool := match r with | .e404 => true | _ => false
+def is405 (r : Result) : Bool := match r with | .e405 _ => true | _ => false
+
+/-- … and on it `GET /a/b` finds handler 0, `GET /a` is a 405, `GET /b` a 404 -/
+example :
+    isFound (resolve 1 exTable ⟨[47, 97, 47, 98], [47, 97, 47, 98], GET, none⟩) 0 = true ∧
+    is405 (resolve 1 exTable ⟨pA, pA, GET, none⟩) = true ∧
+    is404 (resolve 1 exTable ⟨[47, 98], [47, 98], GET, none⟩) = true := by decide +kernel
+
+/-- `Fits` is satisfiable: `/a/{x}` with `x = "b"` -/
+example : Fits [.lit [47, 97, 47], .var [120] [(0, 46), (48, 122), (124, 124), (126, 1114111)] 1] [([120], [98])] :=
+  .lit (.var .nil (by simp) (by simp) (by simp [inRanges]) (Or.inl rfl))
+
+/-- **Finding F12, on the model.** `add_get("/a b/{x}")`: the literal is re-quoted to `/a%20b/`
+(oracle column) and compared with the *decoded* path `/a b/1`, so the resource can never
+match: the answer is 404. -/
+theorem f12_quoted_literal_never_matches :
+    is404 (resolve 1
+      (okTable (addRoute [([47, 97, 32, 98, 47], [47, 97, 37, 50, 48, 98, 47]), ([], [])] Table.empty GET
+        [47, 97, 32, 98, 47, 123, 120, 125] 0))
+      ⟨[47, 97, 32, 98, 47, 49], [47, 97, 32, 98, 47, 49], GET, none⟩) = true := by decide +kernel
+
+/-- **Finding (registration), on the model.** A sub-application that holds an `add_domain`
+resource cannot be mounted with `add_subapp`: `_add_prefix_to_resources` un-indexes a resource
+that was never indexed → `KeyError`. -/
+theorem subapp_with_domain_keyerror :
+    errIs (addSubapp 4 Table.empty [47, 112] [47, 112]
+      (addDomain Table.empty (.exact [97]) Table.empty)) .key = true := by decide +kernel
 
 end Aio.C14
